@@ -2,7 +2,7 @@
     specification-level oracle (a map from topic strings to values + MQTT matching) are both
     run on the operation history the implementation executed, and compared with what the
     implementation returned. *)
-From Wasp Require Import Model.Base Model.Trie Spec.MatchSpec.
+From Wasp Require Export Model.Base Model.Trie Spec.MatchSpec.
 
 Inductive top :=
 | OSUp (k v : string)                      (* Upsert(k, const v) ; v = "" deletes *)
